@@ -13,8 +13,8 @@ import numpy as np
 import vlib
 
 LEVEL = "proof"
-EXTENSIONS = ["xnl"]                     # the Newton loop of FSolver::Static2D (AsmMNL.v, props/xnl.py)
-EXTRA_PROPERTY_FILES = ["C19_energy", "C19_nl"]   # CMMaterialProp::DoEnergy / DoCoEnergy of nonlinear materials (BHEnergy.v)
+EXTENSIONS = ["xnl", "xnlaxi"]                     # the Newton loop of FSolver::Static2D (AsmMNL.v, props/xnl.py)
+EXTRA_PROPERTY_FILES = ["C19_energy", "C19_nl", "C19_nlaxi"]   # CMMaterialProp::DoEnergy / DoCoEnergy of nonlinear materials (BHEnergy.v)
 COQ_MODULES = ["BH", "BHEnergy"]
 ASSUMPTIONS = [
     "theorems about the stored slopes (spline equations, straight-line table => constant slopes) are conditional on GaussSolve's own success flag; that flag is evaluated by the float model on every generated table and a False is reported as a violation",
